@@ -711,7 +711,12 @@ impl Gen {
             return Op::PushUnchecked(m);
         }
         if self.prop != C02 && self.prop != C17 && !info.in_check && self.rng.chance(2) {
-            return Op::PushUnchecked(RMove { kind: rm::K_NULL, cell: 0, src: 0, dst: 0 });
+            let null = RMove { kind: rm::K_NULL, cell: 0, src: 0, dst: 0 };
+            return if self.rng.chance(50) { Op::PushUnchecked(null) } else { Op::Push(MoveLike::TryUnchecked(null)) };
+        }
+        if self.prop != C02 && self.prop != C17 && info.in_check && self.rng.chance(6) {
+            // must be refused: the null move is never available to a side in check
+            return Op::Push(MoveLike::TryUnchecked(RMove { kind: rm::K_NULL, cell: 0, src: 0, dst: 0 }));
         }
         Op::Push(self.legal_like(&info, &m))
     }
